@@ -51,7 +51,7 @@ fn abs_pack(l: &L) -> Value {
         .ids
         .iter()
         .enumerate()
-        .map(|(k, id)| json!({"t": if l.tree {"tree"} else {"data"}, "id": id, "off": 100 * k, "len": 10 + id, "ulen": 0}))
+        .map(|(k, id)| json!({"t": if l.tree {"tree"} else {"data"}, "id": id, "off": 100 * k, "len": 10 + id + 3 * ((l.p * 7 + 1) % 5), "ulen": 0}))
         .collect();
     json!({"p": l.p, "mark": l.mark, "size": 1000 * l.p + 7, "blobs": blobs})
 }
@@ -61,7 +61,7 @@ fn real_pack(l: &L) -> IndexPack {
         .ids
         .iter()
         .enumerate()
-        .map(|(k, id)| json!({"id": bid(*id).to_hex().as_str(), "type": if l.tree {"tree"} else {"data"}, "offset": 100 * k, "length": 10 + id}))
+        .map(|(k, id)| json!({"id": bid(*id).to_hex().as_str(), "type": if l.tree {"tree"} else {"data"}, "offset": 100 * k, "length": 10 + id + 3 * ((l.p * 7 + 1) % 5)}))
         .collect();
     serde_json::from_value(json!({"id": pid(l.p).to_hex().as_str(), "blobs": blobs, "size": 1000 * l.p + 7})).unwrap()
 }
@@ -73,7 +73,7 @@ fn idx_pack(l: &L) -> IdxPack {
             .ids
             .iter()
             .enumerate()
-            .map(|(k, id)| HdrBlob { tree: l.tree, id: bid(*id), off: 100 * k as u32, len: 10 + *id as u32, ulen: None })
+            .map(|(k, id)| HdrBlob { tree: l.tree, id: bid(*id), off: 100 * k as u32, len: 10 + *id as u32 + 3 * ((l.p as u32 * 7 + 1) % 5), ulen: None })
             .collect(),
         time: None,
         size: Some(1000 * l.p as u32 + 7),
